@@ -7,5 +7,6 @@ RECURSIVE Pows(_, _)
 Pows(p, len) == IF p > len THEN {} ELSE {p - 1, p, p + 1} \cup Pows(p * A, len)
 RPGen(len) == ({0, 1, len - 1, len, len + 1, len \div 2, (len \div A) * A, (len \div A) * A - 1, len - A, len - A - 1} \cup Pows(A, len))
               \cap 0..(len + 1)
+RPNone(len) == {}
 ViewNoHist == <<items, acc, store, pdata, pitems, nops>>
 ====
